@@ -10,11 +10,11 @@ THEOREMS = ["UrcuVerif.CallRcu.base_reach", "UrcuVerif.CallRcu.barrier_in_cs_ref
             "UrcuVerif.CallRcu.binvh_step", "UrcuVerif.CallRcu.binvp_step", "UrcuVerif.CallRcu.binvk_step",
             "UrcuVerif.CallRcu.j2_reach", "UrcuVerif.CallRcu.bdone_reach", "UrcuVerif.CallRcu.pend_shape",
             "UrcuVerif.CallRcu.completion_lifetime", "UrcuVerif.CallRcu.binvr_step", "UrcuVerif.CallRcu.mrun_is_curMark"]
-UNPROVED = ["UrcuVerif.CallRcu.C04_full as first written (weak per-thread fairness only) does not hold for the same reason as C03_full "
-            "(starvation at call_rcu_mutex; argued, C03_full_false is the machine-checked analogue). Proved instead: "
-            "barrier_eventually_returns (from the point where the markers are queued and the mutex released, rcu_barrier() returns on "
-            "every run that is weakly fair for the caller and the markers and on which every marker callback is eventually invoked = "
-            "C03's liveness). Still open: the lock / init / enqueue loop before that point under contention for call_rcu_mutex"]
+UNPROVED = ["(none) 'rcu_barrier() always returns' is proved end to end under CallRcu.BFairEnv (strong fairness of the threads incl. lock "
+            "acquisition, weak fairness of the helpers, sections end, user callbacks terminate, no pause / exit): "
+            "barrier_eventually_returns_from_call; every hypothesis of the earlier barrier_eventually_returns is discharged "
+            "(marker_eventually_done applies C03's end-to-end theorem to the projected run). C04_full as FIRST written (weak fairness "
+            "only) does not hold for the same reason as C03_full"]
 TRUSTED = ["Lean 4.33 kernel; axioms ⊆ {propext, Classical.choice, Quot.sound}",
            "the barrier layer (CallRcu/Barrier.lean) performs C03 steps only through the hooks extBegin/extLock/extCall/extUnlock/extEnd; every C03 theorem holds underneath (base_reach)",
            "per-helper FIFO order of the wfcqueue (C10) and of the helper's invocation loop (cb_fifo_per_helper, C03)",
